@@ -939,6 +939,12 @@ def simplify(case):
             yield c
             break
     for i, op in enumerate(case['ops']):
+        if op['op'] == 'set_bad':
+            # does the violation need the un-encodable value at all?
+            c = _copy.deepcopy(case)
+            c['ops'][i]['op'] = 'set'
+            c['ops'][i]['v'] = 7
+            yield c
         if op['op'] == 'update_kw':
             c = _copy.deepcopy(case)
             c['ops'][i]['op'] = 'update'
